@@ -328,7 +328,7 @@ package p9p
 //@ macro R(f) = smval(REFS, f).(*SFid)
 //@ macro BOUND(f) = (smhas(REFS, f) && R(f).Ent != nil)
 //@ macro KEYS = (forall k any :: {smhas(REFS, k)} smhas(REFS, k) ==> typeis(k, Fid) && 0 <= k.(Fid) && k.(Fid) <= 4294967295)
-//@ macro WF = (sess != nil && sess.fs != nil && KEYS && (forall f Fid :: {smhas(REFS, f)} smhas(REFS, f) ==> typeis(smval(REFS, f), *SFid) && key(R(f)) > 0 && allocated(R(f))))
+//@ macro WF = (sess != nil && sess.fs != nil && KEYS && (forall f Fid :: {smhas(REFS, f)} smhas(REFS, f) ==> typeis(smval(REFS, f), *SFid) && key(R(f)) > 0 && wt(R(f)) && allocated(R(f))))
 //@ macro INJ = (forall f Fid, g Fid :: {smval(REFS, f), smval(REFS, g)} smhas(REFS, f) && smhas(REFS, g) && f != g ==> R(f) != R(g))
 //@ macro LEDGER = (forall f Fid :: {smhas(REFS, f)} BOUND(f) ==> issued(R(f).Ent) && !released(R(f).Ent))
 //@ macro DISTINCT = (forall f Fid, g Fid :: {smval(REFS, f), smval(REFS, g)} BOUND(f) && BOUND(g) && f != g ==> key(R(f).Ent) != key(R(g).Ent))
